@@ -2,6 +2,7 @@ package h
 
 import (
 	"fmt"
+	"math/big"
 	"strconv"
 	"strings"
 
@@ -235,3 +236,55 @@ func checkC15(c Node) Verdict {
 }
 
 func init() { Replay["C15"] = checkC15 }
+
+// Fractions no float32 holds exactly. GoNum.tla ranks values by their mathematical value; its points are those every
+// kind holds exactly or float64 alone. float32(0.1) is a third case: a float32 and a float64 can hold that very value,
+// and float64(0.1) is another number with the same short text. The driver feeds such triples - the float32, the
+// float64 of the same value, the float64 nearest to the decimal - through the pair check of the replay, with the
+// expectation the specification's IdealCmp gives: the sign of the difference of the exact values.
+func init() {
+	Drivers["C15:floats"] = func(emit func(Verdict)) {
+		cps := func(s string) []any {
+			out := []any{}
+			for _, r := range s {
+				out = append(out, float64(r))
+			}
+			return out
+		}
+		type val struct {
+			kind string
+			x    float64
+		}
+		vals := []val{}
+		for _, base := range []float64{0.1, 1.1, -2.7, 0.3, 1e-7, 123456.789} {
+			f := float64(float32(base))
+			vals = append(vals, val{"float32", f}, val{"float64", f}, val{"float64", base})
+		}
+		vals = append(vals, val{"float64", 0}, val{"int", 1}, val{"int", -3})
+		node := func(v val) Node {
+			exact := new(big.Rat).SetFloat64(v.x)
+			dec := strings.TrimRight(strings.TrimRight(exact.FloatString(160), "0"), ".")
+			var txt string
+			switch v.kind {
+			case "float32":
+				txt = fmt.Sprintf("%v", float32(v.x))
+			case "int":
+				txt = fmt.Sprintf("%v", int(v.x))
+			default:
+				txt = fmt.Sprintf("%v", v.x)
+			}
+			return Node{"t": "gnum", "kind": v.kind, "dec": dec, "txt": cps(txt)}
+		}
+		for _, a := range vals {
+			for _, b := range vals {
+				want := new(big.Rat).SetFloat64(a.x).Cmp(new(big.Rat).SetFloat64(b.x))
+				c := Node{"a": node(a), "b": node(b), "want": float64(want)}
+				v := checkC15(c)
+				v.Sig = append(v.Sig, "floats")
+				v.Key = fmt.Sprintf("%s(%v)/%s(%v)", a.kind, a.x, b.kind, b.x)
+				v.Case = c
+				emit(v)
+			}
+		}
+	}
+}
